@@ -494,4 +494,112 @@ theorem extDcl_ok (dc : Dcl) (hwf : WFDcl dc) (hty : ∀ x ∈ dc.names, env.ty 
       Bool.not_true, pDeclSpecs, h1', requireSpec, Bool.false_and, StmtSkel.pur, mark, hscan, hi1, hreset, hnid, h5', horm, h8,
       Option.isSome_some, hinit, hB, hC, hD, Dcl.vals, htn, Dcl.dis, List.map_cons]
 
+/-! ## translation units -/
+
+inductive Ext where
+  | decl (dc : Dcl)
+  | fdef (f : FDef)
+
+namespace Ext
+def flat : Ext → List Tk
+  | .decl dc => dc.flat
+  | .fdef f => f.flat
+def ntoks : Ext → Nat
+  | .decl dc => dc.ntoks
+  | .fdef f => f.ntoks
+def vals (n : Nat) : Ext → List Val
+  | .decl dc => dc.vals n
+  | .fdef f => f.vals n
+def fuel : Ext → Nat
+  | .decl dc => dc.fuel + 2
+  | .fdef f => f.fuel
+end Ext
+
+def WFExt : Ext → Prop
+  | .decl dc => WFDcl dc
+  | .fdef f => WFFDef f
+
+def extsFlat : List Ext → List Tk
+  | [] => []
+  | e :: r => e.flat ++ extsFlat r
+def extsNtoks : List Ext → Nat
+  | [] => 0
+  | e :: r => e.ntoks + extsNtoks r
+/-- the external declarations of the `FileAST`, in source order -/
+def extsVals : Nat → List Ext → List Val
+  | _, [] => []
+  | n, e :: r => e.vals n ++ extsVals (n + e.ntoks) r
+def extsFuel : List Ext → Nat
+  | [] => 1
+  | e :: r => max e.fuel (extsFuel r) + 1
+
+theorem ext_ok (e : Ext) (hwf : WFExt e) (hty : ∀ x, env.ty x = false) (s : PState) (rest : List Tk)
+    (hs : SeesT env s (e.flat ++ rest)) (F : Nat) (hF : e.fuel ≤ F) :
+    ∃ s', run F .externalDeclaration s = .ok (e.vals s.idx) s' ∧ SeesT env s' rest ∧ s'.idx = s.idx + e.ntoks := by
+  cases e with
+  | decl dc => exact extDcl_ok dc hwf (fun x _ => hty x) s rest hs F hF
+  | fdef f => exact funcDef_ok f hwf ⟨hty _, fun x _ => hty x⟩ s rest hs F hF
+
+theorem ext_head : ∀ (e : Ext), WFExt e → ∃ t r, e.flat = t :: r
+  | .decl dc, hw => by obtain ⟨t, r, h, _⟩ := Dcl.head hw; exact ⟨t, r, h⟩
+  | .fdef f, hw => by
+    obtain ⟨t, r, hsp, _⟩ := specs_head hw.specToks hw.sawType
+    exact ⟨t, r ++ (f.d.flat ++ bodyFlat f.body), by show Ext.flat (.fdef f) = _; simp only [Ext.flat, FDef.flat, hsp]; rfl⟩
+
+/-- **`_parse_translation_unit`** -/
+theorem tu_loop : ∀ (l : List Ext) (acc : List Val) (s : PState) (F : Nat), (∀ e ∈ l, WFExt e) → (∀ x, env.ty x = false) →
+    SeesT env s (extsFlat l) → extsFuel l ≤ F →
+    ∃ s', run F (.translationUnitLoop acc) s = .ok (acc ++ extsVals s.idx l) s' ∧ SeesT env s' [] ∧
+      s'.idx = s.idx + extsNtoks l
+  | [], acc, s, F, _, _, hs, hF => by
+    obtain ⟨G, rfl⟩ : ∃ G, F = G + 1 := ⟨F - 1, by simp only [extsFuel] at hF; omega⟩
+    obtain ⟨s1, h1, hs1, _, hi1, _⟩ := peek_end s hs
+    refine ⟨s1, ?_, hs1, by simp only [extsNtoks]; omega⟩
+    show pTranslationUnitLoop (run G) acc s = _
+    simp [pTranslationUnitLoop, StmtSkel.bnd, h1, StmtSkel.pur, extsVals]
+  | e :: l, acc, s, F, hw, hty, hs, hF => by
+    obtain ⟨G, rfl⟩ : ∃ G, F = G + 1 := ⟨F - 1, by simp only [extsFuel] at hF; omega⟩
+    simp only [extsFuel] at hF
+    obtain ⟨t, r, hfl⟩ := ext_head e (hw e List.mem_cons_self)
+    have hs0 : SeesT env s (e.flat ++ extsFlat l) := by simpa [extsFlat] using hs
+    have hs0' : SeesT env s ((t.1, t.2) :: (r ++ extsFlat l)) := by simpa [hfl] using hs0
+    obtain ⟨s1, h1, hs1, _, hi1, _⟩ := peek_spec s t.1 t.2 _ hs0'
+    have hs1' : SeesT env s1 (e.flat ++ extsFlat l) := by simpa [hfl] using hs1
+    obtain ⟨s2, h2, hs2, hi2⟩ := ext_ok e (hw e List.mem_cons_self) hty s1 _ hs1' G (by omega)
+    obtain ⟨s3, h3, hs3, hi3⟩ := tu_loop l (acc ++ e.vals s1.idx) s2 G (fun e' h => hw e' (List.mem_cons_of_mem _ h)) hty hs2 (by omega)
+    refine ⟨s3, ?_, hs3, by simp only [extsNtoks]; omega⟩
+    have e1 : s1.idx = s.idx := hi1
+    have e2 : s2.idx = s.idx + e.ntoks := by omega
+    rw [e2] at h3
+    rw [e1] at h2 h3
+    show pTranslationUnitLoop (run G) acc s = _
+    simp [pTranslationUnitLoop, StmtSkel.bnd, h1, h2, h3, StmtSkel.pur, extsVals]
+
+/-- **Whole translation units.** For every translation unit of the fragment - any number of
+file-scope declarations and function definitions, bodies with declarations and statements, all of
+any size - `CParser.parse` (its model `parseCore`, on the token stream of the program) returns the
+`FileAST` whose external declarations are the ones the grammar prescribes, in source order. -/
+theorem parse_translation_unit (l : List Ext) (hw : ∀ e ∈ l, WFExt e) (F : Nat) (hF : extsFuel l ≤ F) :
+    (parseCore F ((extsFlat l).map (fun t => SEv.tok t.1 t.2) ++ [.eof])).1 =
+      .ast (mk .FileAST none [.list (extsVals 0 l)]) := by
+  have hs := ParenExpr.seesT_init (extsFlat l)
+  cases l with
+  | nil =>
+    obtain ⟨s1, h1, hs1, _, _, _⟩ := peek_end _ hs
+    obtain ⟨s2, h2, hs2, _, _, _⟩ := peek_end _ hs1
+    simp only [extsFlat, List.map_nil, List.nil_append] at h1
+    simp [parseCore, extsFlat, StmtSkel.bnd, h1, h2, StmtSkel.pur, extsVals]
+  | cons e r =>
+    obtain ⟨t, r', hfl⟩ := ext_head e (hw e List.mem_cons_self)
+    have hs' : SeesT ⟨fun _ => false, extsFlat (e :: r)⟩ (initState ((extsFlat (e :: r)).map (fun t => SEv.tok t.1 t.2) ++ [.eof]))
+        ((t.1, t.2) :: (r' ++ extsFlat r)) := by simpa [extsFlat, hfl] using hs
+    obtain ⟨s1, h1, hs1, _, hi1, _⟩ := peek_spec _ t.1 t.2 _ hs'
+    have hs1' : SeesT ⟨fun _ => false, extsFlat (e :: r)⟩ s1 (extsFlat (e :: r)) := by simpa [extsFlat, hfl] using hs1
+    obtain ⟨s2, h2, hs2, hi2⟩ := tu_loop (e :: r) [] s1 F hw (fun _ => rfl) hs1' hF
+    obtain ⟨s3, h3, hs3, _, _, _⟩ := peek_end _ hs2
+    have e1 : s1.idx = 0 := hi1
+    rw [e1] at h2
+    simp only [List.nil_append] at h2
+    simp [parseCore, StmtSkel.bnd, h1, h2, h3, StmtSkel.pur]
+
 end PycModel.TransUnit
